@@ -187,7 +187,7 @@ TRANSPARENT = re.compile(
     r"branch|as_str|as_bytes|as_slice|to_owned|to_string|to_vec|as_path|as_deref|as_deref_mut|into_inner|"
     r"get_mut|lock|read|write|try_into|unwrap_unchecked|into_iter|iter|iter_mut|by_ref|as_ptr|as_mut_ptr|cast|"
     r"to_path_buf|into_boxed_slice|new_unchecked|get_unchecked|from_mut|from_ref|index|index_mut|"
-    r"copied|cloned|unwrap_or|map_err|join|is_some|is_none|is_ok|is_err|next|next_back|peek|enumerate|rev|map|filter|ok_or|ok_or_else|as_mut_slice|into_string|to_le_bytes|to_be_bytes)$")
+    r"copied|cloned|unwrap_or|map_err|inspect_err|inspect|join|is_some|is_none|is_ok|is_err|next|next_back|peek|enumerate|rev|map|filter|ok_or|ok_or_else|as_mut_slice|into_string|to_le_bytes|to_be_bytes)$")
 
 
 MUTATORS = re.compile(r"(Vec|VecDeque|HashSet|BTreeSet|HashMap|BTreeMap|BinaryHeap)::(push|push_back|push_front|insert|extend|append|extend_from_slice)$")
@@ -650,6 +650,7 @@ class Held:
         self.ident = {}
         self._compute_ident()
         self._run()
+        self.borrowed = self._borrowed_locks()
 
     def lock_id_of_local(self, g):
         return self.ident.get(g) or ("guard<%s>" % guard_inner(self.fn.locals[g]))
@@ -766,7 +767,78 @@ class Held:
         return s
 
     def locks_at(self, pt, must=True):
-        return {self.lock_id_of_local(g) for g in self.at(pt, must)}
+        return {self.lock_id_of_local(g) for g in self.at(pt, must)} | self.borrowed
+
+    _BUSY = set()
+
+    def _borrowed_locks(self):
+        """Locks held by *every caller* for the whole of this function: a private function that takes `&mut T` / `&T` where T is what
+        exactly one lock of the program guards, and that every call site hands the contents of a guard it holds at that moment
+        (`helper(&mut guard)`), runs inside its callers' critical section -- the same as if it had been handed the guard itself."""
+        fn, prog = self.fn, self.prog
+        out = set()
+        if fn.pub or fn.key in Held._BUSY or not getattr(prog, "fns", None):
+            return out
+        for i in range(1, fn.argc + 1):
+            m = re.match(r"^&(?:'\S+ )?(?:mut )?(.*)$", fn.locals[i])
+            if not m or is_guard_ty(m.group(1)):
+                continue
+            cands = lock_fields_guarding(prog, m.group(1))
+            if len(cands) != 1:
+                continue
+            Held._BUSY.add(fn.key)
+            try:
+                sites = 0
+                ok = True
+                for g in prog.fns.values():
+                    if g.crate != fn.crate:
+                        continue
+                    for b, t in g.calls():
+                        if fn.key not in prog.targets(t):
+                            continue
+                        sites += 1
+                        if i - 1 >= len(t["args"]):
+                            ok = False
+                            continue
+                        hg = held(prog, g)
+                        now = hg.at(term_pt(g, b.idx), must=True)
+                        via = False
+                        for s_ in origins(g, t["args"][i - 1]):
+                            if s_["k"] == "call" and re.search(r"Deref(Mut)?>?::deref(_mut)?$", s_["callee"]):
+                                for s2 in origins(g, s_["t"]["args"][0]):
+                                    pass
+                                gl = {x for x in base_guard_locals(g, s_["t"]["args"][0]) if x in hg.guards}
+                                if gl and gl <= now and all(hg.lock_id_of_local(x) == cands[0] for x in gl):
+                                    via = True
+                        if not via and cands[0] not in hg.borrowed:
+                            ok = False
+                if sites and ok:
+                    out.add(cands[0])
+            finally:
+                Held._BUSY.discard(fn.key)
+        return out
+
+
+def base_guard_locals(fn, op, depth=0):
+    """Locals a reference operand ultimately borrows from (through `&mut x`, reborrows and moves of references)."""
+    out = set()
+    if op.get("k") not in ("copy", "move") or depth > 6:
+        return out
+    l = op["pl"]["l"]
+    ds = [p_ for (_pt, kind, p_) in defs(fn).of(l) if kind == "assign"]
+    if not ds:
+        out.add(l)
+        return out
+    for st in ds:
+        rv = st["rv"]
+        if rv["r"] == "ref":
+            if "*" in rv["pl"]["p"]:
+                out |= base_guard_locals(fn, {"k": "copy", "pl": {"l": rv["pl"]["l"], "p": []}}, depth + 1)
+            else:
+                out.add(rv["pl"]["l"])
+        elif rv["r"] == "use":
+            out |= base_guard_locals(fn, rv["a"], depth + 1)
+    return out
 
 
 def short_ty(t):
